@@ -17,7 +17,7 @@ Your task: write ONE realistic change (a bug a developer could plausibly introdu
   2. the break needs something SPECIFIC to manifest -- a particular interleaving/completion order of concurrently running nodes, a fault at a particular point, a multi-step sequence of operations, an unusual but legal input or pipeline shape, or two cooperating code sites that each look fine alone -- i.e. NOT something ordinary use or the simplest pipeline would expose at once;
   3. the change is small (a few lines, at most ~25) and does not touch tests.
 
-Also write a demonstration: a standalone script {out}/demo.py (run as `cd {wt} && PYTHONPATH={wt} /venv/bin/python {out}/demo.py`) that exits 0 on the unchanged library and exits non-zero (assertion failure or detected hang via asyncio.wait_for timeout) with your change applied. If the manifestation depends on completion order, force that order deterministically in the demo (asyncio.Event / sleeps inside node bodies). Verify both directions yourself (use `git stash` / `git stash pop` or `git diff > patch; git checkout .; ...`).
+Also write a demonstration: a standalone script {out}/demo.py (run as `cd {wt} && PYTHONPATH={wt} /venv/bin/python {out}/demo.py`) that exits 0 on the unchanged library and exits non-zero (assertion failure or detected hang via asyncio.wait_for timeout) with your change applied. If the manifestation depends on completion order, force that order deterministically in the demo (asyncio.Event / sleeps inside node bodies). Verify both directions yourself with `git diff > patch.diff; git apply -R patch.diff; <demo>; git apply patch.diff; <demo>` -- NEVER use `git stash` (the stash is shared between worktrees of other agents).
 
 Deliverables in {out}/ :
   - patch.diff  (output of `git -C {wt} diff` with your change applied; leave the change applied in the worktree as well)
